@@ -1385,6 +1385,40 @@ fn wake_send_waiters<T>(waiters: &mut LinkedList<SendWaitQueueEntry<T>>) {''',
      'old': '            self.recv_idx = self.next_idx(self.recv_idx);\n            self.size -= 1;',
      'new': '            self.recv_idx = self.next_idx(self.recv_idx);',
      'expect': {'C19': ['C19.R1']}},
+    # ---------------------------------------------------------------- from seed batch 6
+    {'name': 'mpmc-registered-sender-requeues-on-repoll', 'file': 'src/channel/mpmc.rs',
+     'old': """                // In this case we need to update it.
+                update_waker_ref(&mut wait_node.task, cx);
+                (Poll::Pending, None, None)
+            }
+            SendPollState::SendComplete => {""",
+     'new': """                // In this case we need to update it.
+                self.remove_send_waiter(wait_node);
+                wait_node.task = Some(cx.waker().clone());
+                wait_node.state = SendPollState::Registered;
+                self.send_waiters.add_front(wait_node);
+                (Poll::Pending, None, None)
+            }
+            SendPollState::SendComplete => {""",
+     'expect': {'C09': ['C09.R7']}},
+    {'name': 'oneshot-receiver-drop-reaches-into-state', 'file': 'src/channel/oneshot.rs',
+     'old': """                // TODO: We could potentially avoid this, if no sender is left
+                self.inner.channel.close();
+            }
+        }
+
+        /// Creates a new oneshot channel which can be used to exchange values""",
+     'new': """                // TODO: We could potentially avoid this, if no sender is left
+                let mut state = self.inner.channel.inner.lock();
+                state.close();
+                let unclaimed = state.value.take();
+                drop(state);
+                drop(unclaimed);
+            }
+        }
+
+        /// Creates a new oneshot channel which can be used to exchange values""",
+     'expect': {'C12': ['C12.W'], 'C01': ['C01.I8']}},
 ]
 
 ALLP = ['C01','C02','C03','C04','C05','C06','C07','C08','C09','C10','C11','C12','C13','C14','C15','C17','C18','C19','C20']
@@ -1567,6 +1601,109 @@ impl<'a, MutexType, T> FusedFuture for ChannelReceiveFuture<'a, MutexType, T> {'
                     if self.permits >= wait_node.required_permits {""",
          'new': """                    // if enough permits are available
                     if self.permits.saturating_sub(0) >= wait_node.required_permits {"""}]},
+    {'name': 'benign-sweep-bool-literal-and-double-negation', 'props': ALLP, 'edits': [
+        {'file': 'src/sync/mutex.rs',
+         'old': '        if self.is_locked {',
+         'new': '        if self.is_locked == true {'},
+        {'file': 'src/sync/mutex.rs',
+         'old': '                if self.try_lock_sync() {',
+         'new': '                if self.try_lock_sync() == true {'},
+        {'file': 'src/channel/mpmc.rs',
+         'old': '    fn close(&mut self) -> CloseStatus {\n        if self.is_closed {',
+         'new': '    fn close(&mut self) -> CloseStatus {\n        if self.is_closed == true {'},
+        {'file': 'src/channel/mpmc.rs',
+         'old': '        );\n\n        if self.is_closed {',
+         'new': '        );\n\n        if self.is_closed == true {'},
+        {'file': 'src/sync/semaphore.rs',
+         'old': '                    if available < last_waiter.required_permits {',
+         'new': '                    if !(!(available < last_waiter.required_permits)) {'},
+        {'file': 'src/sync/semaphore.rs',
+         'old': '                    if last_waiter.state != PollState::Notified {',
+         'new': '                    if !(!(last_waiter.state != PollState::Notified)) {'},
+        {'file': 'src/channel/oneshot.rs',
+         'old': '    fn send(&mut self, value: T) -> Result<(), ChannelSendError<T>> {\n        if self.is_fulfilled {',
+         'new': '    fn send(&mut self, value: T) -> Result<(), ChannelSendError<T>> {\n        if self.is_fulfilled == true {'},
+    ]},
+    {'name': 'benign-sweep-constants-through-temporaries', 'props': ALLP, 'edits': [
+        {'file': 'src/sync/mutex.rs',
+         'old': '            last_waiter.state = PollState::Notified;',
+         'new': '            let tmp_benign_value = PollState::Notified; last_waiter.state = tmp_benign_value;'},
+        {'file': 'src/sync/mutex.rs',
+         'old': '            self.is_locked = false;',
+         'new': '            let tmp_benign_value = false; self.is_locked = tmp_benign_value;'},
+        {'file': 'src/channel/mpmc.rs',
+         'old': '        waiter.state = RecvPollState::Unregistered;',
+         'new': '        let tmp_benign_value = RecvPollState::Unregistered; waiter.state = tmp_benign_value;'},
+        {'file': 'src/channel/oneshot.rs',
+         'old': '        waiter.state = RecvPollState::Unregistered;',
+         'new': '        let tmp_benign_value = RecvPollState::Unregistered; waiter.state = tmp_benign_value;'},
+        {'file': 'src/channel/state_broadcast.rs',
+         'old': '            // A value was available\n            mut_self.channel = None;',
+         'new': '            // A value was available\n            let tmp_benign_value = None; mut_self.channel = tmp_benign_value;'},
+    ]},
+    {'name': 'benign-sweep-option-spellings', 'props': ALLP, 'edits': [
+        {'file': 'src/sync/mutex.rs',
+         'old': '        self.mutex.is_none()',
+         'new': '        !self.mutex.is_some()'},
+        {'file': 'src/channel/channel_future.rs',
+         'old': "impl<'a, MutexType, T> FusedFuture for ChannelReceiveFuture<'a, MutexType, T> {\n    fn is_terminated(&self) -> bool {\n        self.channel.is_none()",
+         'new': "impl<'a, MutexType, T> FusedFuture for ChannelReceiveFuture<'a, MutexType, T> {\n    fn is_terminated(&self) -> bool {\n        !self.channel.is_some()"},
+        {'file': 'src/channel/mpmc.rs',
+         'old': '        last_waiter.state = RecvPollState::Notified;\n        last_waiter.task.take()',
+         'new': '        last_waiter.state = RecvPollState::Notified;\n        core::mem::replace(&mut last_waiter.task, None)'},
+        {'file': 'src/channel/mpmc.rs',
+         'old': '                    let value = wait_node.value.take();',
+         'new': '                    let value = core::mem::replace(&mut wait_node.value, None);'},
+        {'file': 'src/intrusive_pairing_heap.rs',
+         'old': '        let parent = node.parent.take();',
+         'new': '        let parent = core::mem::replace(&mut node.parent, None);'},
+    ]},
+    {'name': 'benign-sweep-comparison-spellings', 'props': ALLP, 'edits': [
+        {'file': 'src/timer/timer.rs',
+         'old': '        self.expiry == other.expiry',
+         'new': '        !(self.expiry != other.expiry)'},
+        {'file': 'src/buffer/ring_buffer.rs',
+         'old': '        self.len() != self.capacity()',
+         'new': '        !(self.len() == self.capacity())'},
+        {'file': 'src/buffer/ring_buffer.rs',
+         'old': '            self.buffer.len() != self.cap',
+         'new': '            !(self.buffer.len() == self.cap)'},
+        {'file': 'src/buffer/ring_buffer.rs',
+         'old': '            self.buffer.len() != self.limit',
+         'new': '            !(self.buffer.len() == self.limit)'},
+        {'file': 'src/intrusive_pairing_heap.rs',
+         'old': '    let ordering = a < b;',
+         'new': '    let ordering = (b > a);'},
+        {'file': 'src/sync/semaphore.rs',
+         'old': '        if (self.permits >= required_permits)',
+         'new': '        if (!(self.permits < required_permits))'},
+    ]},
+    {'name': 'benign-sweep-if-else-swapped', 'props': ALLP, 'edits': [
+        {'file': 'src/sync/mutex.rs',
+         'old': '        if self.is_locked {\n            self.is_locked = false;\n            // TODO: Does this require a memory barrier for the actual data,\n            // or is this covered by unlocking the mutex which protects the data?\n            // Wakeup the last waiter\n            self.return_last_waiter()\n        } else {\n            None\n        }',
+         'new': '        if !(self.is_locked) {\n            None\n        } else {\n            self.is_locked = false;\n            // TODO: Does this require a memory barrier for the actual data,\n            // or is this covered by unlocking the mutex which protects the data?\n            // Wakeup the last waiter\n            self.return_last_waiter()\n        }'},
+        {'file': 'src/sync/semaphore.rs',
+         'old': "                    if !self.is_fair {\n                        self.waiters.remove_last();\n                    } else {\n                        // For a fair Semaphore we never wake more than 1 task.\n                        // That one needs to acquire the Semaphore.\n                        // TODO: We actually should be able to wake more, since\n                        // it's guaranteed that both tasks could make progress.\n                        // However the we currently can't peek iterate in reverse order.\n                        return;\n                    }",
+         'new': "                    if !(!self.is_fair) {\n                        // For a fair Semaphore we never wake more than 1 task.\n                        // That one needs to acquire the Semaphore.\n                        // TODO: We actually should be able to wake more, since\n                        // it's guaranteed that both tasks could make progress.\n                        // However the we currently can't peek iterate in reverse order.\n                        return;\n                    } else {\n                        self.waiters.remove_last();\n                    }"},
+        {'file': 'src/channel/mpmc.rs',
+         'old': '                if !self.buffer.can_push() {\n                    // If the capacity is exhausted, register a waiter\n                    wait_node.task = Some(cx.waker().clone());\n                    wait_node.state = SendPollState::Registered;\n                    self.send_waiters.add_front(wait_node);\n\n                    // Return the oldest receive waiter\n                    let waker =\n                        return_oldest_receive_waiter(&mut self.receive_waiters);\n                    return (Poll::Pending, None, waker);\n                } else {\n                    // Otherwise copy the value directly into the channel\n                    let value = wait_node\n                        .value\n                        .take()\n                        .expect("wait_node must contain value");\n                    self.buffer.push(value);\n\n                    // Return the oldest receive waiter\n                    let waker =\n                        return_oldest_receive_waiter(&mut self.receive_waiters);\n\n                    (Poll::Ready(()), None, waker)\n                }',
+         'new': '                if !(!self.buffer.can_push()) {\n                    // Otherwise copy the value directly into the channel\n                    let value = wait_node\n                        .value\n                        .take()\n                        .expect("wait_node must contain value");\n                    self.buffer.push(value);\n\n                    // Return the oldest receive waiter\n                    let waker =\n                        return_oldest_receive_waiter(&mut self.receive_waiters);\n\n                    (Poll::Ready(()), None, waker)\n                } else {\n                    // If the capacity is exhausted, register a waiter\n                    wait_node.task = Some(cx.waker().clone());\n                    wait_node.state = SendPollState::Registered;\n                    self.send_waiters.add_front(wait_node);\n\n                    // Return the oldest receive waiter\n                    let waker =\n                        return_oldest_receive_waiter(&mut self.receive_waiters);\n                    return (Poll::Pending, None, waker);\n                }'},
+    ]},
+    {'name': 'benign-oneshot-receiver-drop-closes-state-under-own-lock', 'props': ALLP, 'edits': [
+        {'file': 'src/channel/oneshot.rs',
+         'old': """                // TODO: We could potentially avoid this, if no sender is left
+                self.inner.channel.close();
+            }
+        }
+
+        /// Creates a new oneshot channel which can be used to exchange values""",
+         'new': """                // TODO: We could potentially avoid this, if no sender is left
+                let mut state = self.inner.channel.inner.lock();
+                state.close();
+            }
+        }
+
+        /// Creates a new oneshot channel which can be used to exchange values"""}]},
     {'name': 'benign-unrelated-additions', 'props': ALLP, 'edits': [
         {'file': 'src/sync/semaphore.rs',
          'old': '''    /// Returns the amount of permits that are available on the semaphore
